@@ -2,6 +2,7 @@
 package replicator
 
 import (
+	"berty.tech/go-orbit-db/verifhook"
 	"context"
 	"fmt"
 	"strings"
@@ -157,6 +158,8 @@ func (r *replicator) Load(ctx context.Context, entries []ipfslog.Entry) {
 
 	ctx, span := r.tracer.Start(ctx, "replicator-load", trace.WithAttributes(otkv.String("cids", strings.Join(cidsStrings, ","))))
 	defer span.End()
+	verifhook.At("repl.load.enter", r, r.store, ctx, cidsStrings)
+	defer verifhook.At("repl.load.exit", r, r.store)
 
 	// bind context with root ctx
 	ctx, cancel := r.rootContextWithCancel(ctx)
@@ -171,6 +174,7 @@ func (r *replicator) Load(ctx context.Context, entries []ipfslog.Entry) {
 			continue
 		}
 
+		verifhook.At("repl.enqueue", r, r.store, entry.GetHash(), "entry")
 		// signal that we add an entry to the queue
 		if err := r.emitters.evtLoadAdded.Emit(NewEventLoadAdded(entry.GetHash(), entry)); err != nil {
 			r.logger.Warn("unable to emit event load added", zap.Error(err))
@@ -223,6 +227,7 @@ func (r *replicator) processItems(ctx context.Context, wg *sync.WaitGroup, items
 			if exist := r.AddHashToQueue(hash); exist {
 				continue
 			}
+			verifhook.At("repl.enqueue", r, r.store, hash, "hash")
 
 			wg.Add(1)
 
@@ -266,6 +271,7 @@ func (r *replicator) processHash(ctx context.Context, item processItem) ([]cid.C
 		}
 	}()
 
+	verifhook.At("repl.fetch", r, r.store, hash, ctx)
 	l, err := ipfslog.NewFromEntryHash(ctx, r.store.IPFS(), r.store.Identity(), hash, &ipfslog.LogOptions{
 		ID:               r.store.OpLog().GetID(),
 		AccessController: r.store.AccessController(),
@@ -277,6 +283,7 @@ func (r *replicator) processHash(ctx context.Context, item processItem) ([]cid.C
 		ShouldExclude: r.shouldExclude,
 	})
 
+	verifhook.At("repl.fetched", r, r.store, hash, l, err)
 	if err != nil {
 		return nil, fmt.Errorf("unable to fetch log: %w", err)
 	}
@@ -317,7 +324,9 @@ func (r *replicator) generateEmitter(bus event.Bus) error {
 }
 
 func (r *replicator) waitForProcessSlot(ctx context.Context) (e processItem, err error) {
+	verifhook.At("repl.slot.wait", r, r.store, ctx)
 	if err := r.sem.Acquire(ctx, 1); err != nil {
+		verifhook.At("repl.slot.fail", r, r.store)
 		return nil, fmt.Errorf("failed to acquire process slot: %w", err)
 	}
 	r.muProcess.Lock()
@@ -326,6 +335,7 @@ func (r *replicator) waitForProcessSlot(ctx context.Context) (e processItem, err
 
 	e = r.queue.Next()
 	r.tasks[e.GetHash()] = stateFetching
+	verifhook.At("repl.dequeued", r, r.store, e.GetHash(), r.queue.Len(), r.taskInProgress)
 
 	r.muProcess.Unlock()
 	return
@@ -338,6 +348,7 @@ func (r *replicator) processEntryDone(item processItem) {
 
 	// remove hash from queued list
 	r.tasks[item.GetHash()] = stateFetched
+	verifhook.At("repl.done", r, r.store, item.GetHash(), r.queue.Len(), r.taskInProgress)
 
 	// if there no more task to proceed, trigger idle method
 	if r.isIdle() {
@@ -414,6 +425,7 @@ func (r *replicator) idle() {
 	r.muBuffer.Lock()
 
 	if len(r.buffer) > 0 {
+		verifhook.At("repl.idle.emit", r, r.store, len(r.buffer))
 		if err := r.emitters.evtLoadEnd.Emit(NewEventLoadEnd(r.buffer)); err != nil {
 			r.logger.Warn("unable to emit event load end", zap.Error(err))
 		}
